@@ -124,7 +124,8 @@ namespace {
       cx.u = { };
       cx.u.names.assign(nn, nullptr);
       std::vector<std::pair<std::string, const ipr::Type*>> ty(16);
-      const char8_t* ids[] = { u8"n0", u8"n1", u8"n2", u8"n3", u8"n4", u8"n5" };
+      // (among the identifiers: the empty one -- the name every unnamed entity has -- and a reserved word)
+      const char8_t* ids[] = { u8"n0", u8"", u8"n2", u8"virtual", u8"n4", u8"n5" };
       auto prod = [&](std::initializer_list<const ipr::Type*> ts) -> const ipr::Product& {
          impl::Warehouse<ipr::Type> w;
          for (auto t : ts) w.push_back(*t);
@@ -134,8 +135,8 @@ namespace {
          switch (i) {
          case 0: return L.int_type();
          case 1: return L.bool_type();
-         case 2: return L.char_type();
-         case 3: return L.double_type();
+         case 2: return L.class_type();             // (`N : class`, `N : enum`: what a type declaration is typed by)
+         case 3: return L.enum_type();
          case 4: return L.get_pointer(L.int_type());
          case 5: return L.get_pointer(L.bool_type());
          case 6: return L.get_reference(L.int_type());
@@ -608,6 +609,43 @@ namespace {
       return v;
    }
 
+   // `hbulk n`: n more members at once (scale: the list is not observed in between), then what the list says about itself -- its size
+   // by every route, the positions of its first, its last and (when there are that many) its 256th, 65 536th and 65 537th member,
+   // whether the first member is still the first.  Implementation-only (the model is not asked).
+   std::string op_hbulk(std::size_t n)
+   {
+      if (cx.hkind.empty() or cx.hkind == "eh") return "bad-op";
+      auto& L = *cx.lex;
+      const ipr::Type* tys[] = { &L.int_type(), &L.bool_type(), &L.get_pointer(L.int_type()) };
+      impl::Class* bases[] = { L.make_class(*cx.unit->global_region()), L.make_class(*cx.unit->global_region()) };
+      std::vector<const ipr::Decl*> added;
+      added.reserve(n);
+      for (std::size_t i = 0; i < n; ++i) {
+         std::string w = "bulk" + std::to_string(i);
+         auto& nm = L.get_identifier(std::u8string(w.begin(), w.end()));
+         if (cx.hkind == "param") added.push_back(cx.mapping->param(nm, *tys[i % 3]));
+         else if (cx.hkind == "enum") added.push_back(cx.enm->add_member(nm));
+         else added.push_back(cx.cls->declare_base(*bases[i % 2]));
+      }
+      std::size_t size = 0, scope_size = 0, arity = 0;
+      std::string pos;
+      auto at = [&](const auto& seq, std::size_t i) -> const ipr::Decl* { return i < seq.size() ? static_cast<const ipr::Decl*>(&*seq.position(i)) : nullptr; };
+      auto report = [&](const auto& seq, const ipr::Scope& sc) {
+         size = seq.size(); scope_size = sc.size();
+         arity = dynamic_cast<const ipr::Product&>(sc.type()).operand().size();
+         const std::size_t old = size >= n ? size - n : 0;
+         for (std::size_t k : { std::size_t{0}, std::size_t{255}, std::size_t{256}, std::size_t{65535}, std::size_t{65536}, n - 1 }) {
+            if (k >= n) continue;
+            const ipr::Decl* d = at(seq, old + k);
+            pos += (pos.empty() ? "" : ",") + std::to_string(k) + ":" + (d == added[k] ? position_str(*d) : std::string("?"));
+         }
+      };
+      if (cx.hkind == "param") report(cx.mapping->parameters().elements(), cx.mapping->parameters().region().bindings());
+      else if (cx.hkind == "enum") report(static_cast<const ipr::Enum*>(cx.enm)->members(), cx.enm->region().bindings());
+      else report(static_cast<const ipr::Class*>(cx.cls)->bases(), cx.cls->base_subobjects.bindings());
+      return "bulk size=" + std::to_string(size) + " scope=" + std::to_string(scope_size) + " arity=" + std::to_string(arity) + " pos=" + pos;
+   }
+
    std::string op_hfull()
    {
       if (cx.hkind.empty()) return "bad-op";
@@ -673,6 +711,7 @@ int main()
          else if (op == "hnew") out = op_hnew(a);
          else if (op == "hadd") out = op_hadd(a, b);
          else if (op == "hfull") out = op_hfull();
+         else if (op == "hbulk") out = op_hbulk(a.empty() ? 0u : std::stoul(a));
          else out = "bad-op";
       }
       catch (const std::logic_error&) { out = "!L"; }
